@@ -41,7 +41,7 @@ func TestVerifSimFence(t *testing.T) {
 		Stub: []string{"clusternet.Caller (simulated network: reorder, drop, response loss, isolation; PullHint delivered immediately)",
 			"control plane: tape-drawn authoritative metadata history (fence set/clear, leader-epoch and epoch bumps) with per-node lagging views served through ChannelMetaSource",
 			"clients",
-			"repl_mode=pullack runs: no durable quorum log (transitional pull/ack replication); repl_mode=quorum runs use the production composition of pkg/cluster/node_defaults.go (replication.NewStoreAdapter + channels.NewQuorumPeerLink + replication.NewRuntime, QuorumLog into channels.NewService, quorum exchange gateway registered; exchanges travel through the simulated caller with the real codec; one metadata-lock taker per node at a time)"},
+			"repl_mode=pullack runs: no durable quorum log (transitional pull/ack replication); repl_mode=quorum runs use the production composition of pkg/cluster/node_defaults.go (replication.NewStoreAdapter + channels.NewQuorumPeerLink + replication.NewRuntime, QuorumLog into channels.NewService, quorum exchange gateway registered; exchanges travel through the simulated caller with the real codec; one metadata-lock taker per node at a time; the log sits behind a pass-through that records the reactor's Install calls)"},
 		Rule: "One run = one synctest bubble with 3 real channel nodes and one channel: a main phase of tape-chosen appends and metadata applications under network faults, then a fault-free drain phase (metadata converged on every node, every RPC delivered). " +
 			"Non-trivial = at least one append acknowledged AND (an append rejected by an active write fence OR a fencing metadata change applied on a leader while appends were queued or in flight).",
 		Assumptions: []string{"testing/synctest fake clock and quiescence semantics (go1.26.8)",
@@ -140,6 +140,8 @@ type fengine struct {
 	draining  bool
 	converged map[ch.NodeID]bool
 	drainFrom time.Time
+	// Install calls of each node's quorum log already reported in the trace
+	installSeen map[ch.NodeID]int
 }
 
 func runFenceSim(t *testing.T, r *simkit.Run) {
@@ -163,7 +165,7 @@ func runFenceSim(t *testing.T, r *simkit.Run) {
 		defer runtime.GOMAXPROCS(prev)
 	}
 	simkit.Bubble(t, r, func() {
-		e := &fengine{r: r, c: c, nextMsgID: 7000, refused: map[uint64]int{}, converged: map[ch.NodeID]bool{}}
+		e := &fengine{r: r, c: c, nextMsgID: 7000, refused: map[uint64]int{}, converged: map[ch.NodeID]bool{}, installSeen: map[ch.NodeID]int{}}
 		e.run()
 	})
 }
@@ -471,6 +473,19 @@ func (e *fengine) observe() {
 	e.snaps = append(e.snaps, cur)
 	idx := len(e.snaps) - 1
 	r.Logf("obs%d %s", idx, describeNodes(cur, w.ids))
+	for _, id := range w.ids {
+		// what the reactor handed to the durable quorum log since the last observation
+		ins := w.nodes[id].qlog.installsSnapshot()
+		for _, in := range ins[e.installSeen[id]:] {
+			a := in.auth
+			r.Logf("  quorum log n%d: Install e%d.%d gen %d leader %d fence=%s", id, a.ID.ChannelEpoch, a.ID.LeaderTerm, a.ID.FenceVersion, a.Leader, fenceStr(a.WriteFence))
+			r.Probe("quorum.install_submitted")
+			if a.WriteFence.Set() {
+				r.Probe("quorum.fenced_authority_installed")
+			}
+		}
+		e.installSeen[id] = len(ins)
+	}
 	var abs []any
 	lv, _ := e.latest()
 	for _, id := range w.ids {
@@ -958,6 +973,16 @@ func (e *fengine) finish(op *fop, idx int) {
 			return
 		}
 	} else {
+		if e.c.quorum {
+			// the A / fenced B / A-again sequence ended in a refusal: the quorum log (or the
+			// reactor's CommitReady) held although older metadata had lifted the fence in the reactor
+			for _, id := range e.w.ids {
+				if s := e.snaps[op.start][id]; s.leaderActive() && s.liftedFrom != 0 && (op.surface == "svc" || id == op.node) {
+					r.Probe("quorum.append_unacknowledged_under_lifted_fence")
+					break
+				}
+			}
+		}
 		switch {
 		case notReady:
 			r.Probe("append.err.not_ready")
@@ -1050,6 +1075,8 @@ func (e *fengine) checkAck(op *fop, idx int) {
 	if op.surface == "rt" {
 		nodes = []ch.NodeID{op.node}
 	}
+	var byNode ch.NodeID // the node (and its state) that explained the acknowledgement
+	var byState *fnode
 	explain := func(adm func(*fnode) bool) (explained, anyAdm bool) {
 		for _, s := range cands {
 			for _, id := range nodes {
@@ -1066,6 +1093,7 @@ func (e *fengine) checkAck(op *fop, idx int) {
 						}
 					}
 					if ok {
+						byNode, byState = id, at
 						return true, true
 					}
 				}
@@ -1085,6 +1113,29 @@ func (e *fengine) checkAck(op *fop, idx int) {
 		hist = append(hist[:3], hist[len(hist)-3:]...)
 	}
 	if ok, _ := explain((*fnode).admissibleIgnoringLift); ok {
+		if e.c.quorum {
+			// With the durable quorum log the reactor's metadata view is not the last
+			// word: the log records the highest authority it was handed and refuses
+			// proposals of a deposed one, so older metadata lifting the fence in the
+			// reactor (known finding C04-K1 on the pull/ack path) cannot produce an
+			// acknowledgement here. This one got through the log: either the fenced
+			// authority never reached it, or it acknowledged under a deposed authority.
+			installed, all := false, []string{}
+			for _, in := range e.w.nodes[byNode].qlog.installsSnapshot() {
+				a := in.auth
+				all = append(all, fmt.Sprintf("(e%d.%d gen %d fence %s)", a.ID.ChannelEpoch, a.ID.LeaderTerm, a.ID.FenceVersion, fenceStr(a.WriteFence)))
+				if a.ID.ChannelEpoch == byState.epoch && a.ID.LeaderTerm == byState.le && a.WriteFence.Set() && a.WriteFence.Version >= byState.liftedFrom {
+					installed = true
+				}
+			}
+			sig, why := "fenced-authority-never-installed", "the reactor never handed that fenced authority to the quorum log (no Install of it), so the log stayed open under the older authority"
+			if installed {
+				sig, why = "quorum-log-acked-deposed-authority", "the fenced authority had been handed to the quorum log (Install) and the log still acknowledged a proposal of the older authority"
+			}
+			r.FailSig("fenced-append-acked", sig, fmt.Sprintf("op%d %s was acknowledged (seqs %v) through the durable quorum log of leader %d although its runtime had carried write fence version %d inside e%d.%d and only older metadata took it away: %s; Install calls on that node: %s; %s",
+				op.id, op.desc, op.seqs, byNode, byState.liftedFrom, byState.epoch, byState.le, why, strings.Join(all, " "), strings.Join(hist, " | ")), nil)
+			return
+		}
 		r.FailSig("fenced-append-acked", "lifted-by-older-metadata", fmt.Sprintf("op%d %s was acknowledged (seqs %v) only because the leader's active write fence had been lifted by metadata older than the one that set it (fence version went back inside one epoch/leader epoch): %s",
 			op.id, op.desc, op.seqs, strings.Join(hist, " | ")), nil)
 		return
